@@ -145,7 +145,7 @@ Qed.
 Lemma alive_bound n ts : tb_ok n (t_tb ts) -> length (alive ts) <= 1 + n.
 Proof.
   intros [H1 H2]. unfold alive. rewrite app_length. pose proof (concat_le _ H2).
-  destruct (t_req ts) as [r|]; [destruct (q_replaced r)|]; simpl; lia.
+  destruct (t_req ts) as [r|]; simpl; lia.
 Qed.
 
 Lemma retention_bounded app h :
